@@ -94,6 +94,12 @@ def build(prop, info, tier, log):
         log.append(out)
         tables_ok = rc == 0
         obligations.append(("tables:" + ",".join(info.get("tables", [])), tables_ok, out[-400:] if not tables_ok else ""))
+        if info.get("src"):
+            # second tie (DESIGN §10): re-translate the Python text of the pure core into Gen/Src_*.v; the
+            # property's theorem file depends on the proofs that tie these definitions to the hand model
+            rc, out = sh("/venv/bin/python tools/py2coq.py all", 120)
+            log.append(out)
+            obligations.append(("source-translation:" + ",".join(info["src"]), rc == 0, out[-600:] if rc else ""))
         rc, out = sh("make -s driver-only", 3000)
         log.append(out)
         driver_ok = rc == 0
